@@ -21,8 +21,8 @@ Open Scope string_scope. Open Scope list_scope.
 Theorem c19_invariant : forall origin srv gunzip (bs : list builder) (sched : list nat),
   origin_gunzip origin gunzip -> etag_names_content origin srv -> builders_ok origin bs ->
   CacheSound origin (dsk (run gunzip srv (init (progs bs)) sched)) /\
-  (* ... and for the order of cachePackage the source of this run has (the same, unless the
-     repair fixes/C19-F2.patch has been applied), indeed for both orders *)
+  (* ... and for the order of cachePackage the source of this run has (control section last
+     since fix 6729dee), indeed for both orders *)
   CacheSound origin (dsk (run gunzip srv (init (progs_ord (ctl_last_of_calls cache_package_calls) bs)) sched)) /\
   forall cl, CacheSound origin (dsk (run gunzip srv (init (progs_ord cl bs)) sched)).
 Proof.
@@ -328,7 +328,7 @@ Proof.
 Qed.
 Print Assumptions c19_stale_hit_without_sig_refuted.
 
-(* THE REPAIR of C19-F2 and C19-F3 (fixes/C19-F2.patch, proposed, not applied):
+(* THE REPAIR of C19-F2 and C19-F3 (fixes/C19-F2.patch, applied to /repo as 6729dee):
    cachePackage advertises the control section LAST ([progs_ord true]).  Then
    for every origin, builders, schedule and kills, a cachedPackage lookup that
    reads the control section in one reachable state, the signature section in
